@@ -9,6 +9,8 @@ mod wprog;
 mod scene;
 mod eng_writer;
 mod eng_reader;
+mod eng_spec;
+mod eng_layout;
 
 use util::Sink;
 
@@ -18,6 +20,8 @@ fn exec_line(engine: &str, line: &str) -> String {
         "pages" => eng_pages::exec(line),
         "writer" => eng_writer::exec(line),
         "reader" => eng_reader::exec(line),
+        "spec" => eng_spec::exec(line),
+        "layout" => eng_layout::exec(line),
         _ => "BADENGINE".into(),
     }
 }
@@ -43,6 +47,8 @@ fn main() {
                 "pages" => eng_pages::generate(&mut sink, seed, thorough),
                 "writer" => eng_writer::generate(&mut sink, seed, thorough),
                 "reader" => eng_reader::generate(&mut sink, seed, thorough),
+                "spec" => eng_spec::generate(&mut sink, seed, thorough),
+                "layout" => eng_layout::generate(&mut sink, seed, thorough),
                 _ => {
                     eprintln!("unknown engine {engine}");
                     std::process::exit(2);
